@@ -49,12 +49,18 @@ class Verifier(Engine):
         if cparams != real_params:
             raise Unsupported(f"contract parameters {cparams} do not match the function's {real_params}")
         fr.anchors_used = set()
+        fr.partial_error = None
         for case_label, st in self.initial_states(contract):
             fr.case_label = case_label
-            self.run_function(fr, st)
-        for g in contract.ghosts:
-            if g.where in ("after", "before") and id(g) not in fr.anchors_used:
-                raise Unsupported(f"ghost anchor not found in the function: {g.text!r}")
+            try:
+                self.run_function(fr, st)
+            except Unsupported as ex:
+                # keep what was generated so far: obligations that already fail are still reported,
+                # the function as a whole is undecided
+                fr.partial_error = str(ex)
+                break
+        fr.unused_anchors = [g.text for g in contract.ghosts
+                             if g.where in ("after", "before") and id(g) not in fr.anchors_used]
         return fr
 
     def number_loops(self, fr, fdef):
@@ -86,13 +92,29 @@ class Verifier(Engine):
                 dims.append([(name, "none"), (name, ty[1])])
             elif ty == "file":
                 dims.append([(name, "file:bytesio"), (name, "file:osfile")])
+            elif isinstance(ty, str) and ty.startswith("lit:"):
+                dims.append([(name, ("lit", ast.literal_eval(x))) for x in ty[4:].split("|")])
             else:
                 dims.append([(name, ty)])
+        splits = dict(contract.case_splits)
+        for k, (name, ty) in enumerate(contract.params):
+            if name in splits and len(dims[k]) == 1:
+                # case split  param == literal  /  param != literal (symbolic)
+                dims[k] = [(name, ("lit", splits[name])), (name, ("neq", dims[k][0][1], splits[name]))]
         for combo in itertools.product(*dims):
             st = State()
             label = []
             for name, ty in combo:
-                if isinstance(ty, str) and ty.startswith("file:"):
+                if isinstance(ty, tuple) and ty[0] == "lit":
+                    st.env[name] = self.const_value(ty[1])
+                    label.append(f"{name}={ty[1]!r}")
+                elif isinstance(ty, tuple) and ty[0] == "neq":
+                    v, facts = sym_value(name, ty[1])
+                    st.env[name] = v
+                    st.assume(*facts)
+                    st.assume(z3.Not(self.eq_vals(st, v, self.const_value(ty[2]))))
+                    label.append(f"{name}!={ty[2]!r}")
+                elif isinstance(ty, str) and ty.startswith("file:"):
                     st.env[name] = self.new_file(st, name, ty.split(":")[1])
                     label.append(f"{name}={ty.split(':')[1]}")
                 elif isinstance(ty, str) and ty.startswith("obj:"):
@@ -243,6 +265,12 @@ class Verifier(Engine):
                     continue
                 if fn == "when":
                     cnd = self.truth(st, self.ev1(ge.args[0], st))
+                    inner = ge.args[1].elts if isinstance(ge.args[1], (ast.List, ast.Tuple)) else [ge.args[1]]
+                    if z3.is_false(cnd):
+                        continue
+                    if z3.is_true(cnd):
+                        self.exec_ghost_stmts(st, inner)
+                        continue
                     sub = st.fork()
                     sub.assume(cnd)
                     before = len(sub.pc)
@@ -279,6 +307,8 @@ class Verifier(Engine):
         return outs
 
     def ex_stmt(self, stmt, st):
+        if not st.feasible():
+            return []
         key = head_src(stmt)
         cnts = self.fr.__dict__.setdefault("stmt_seen", {})
         # nth occurrence of this statement text in source order (by node identity)
